@@ -907,7 +907,7 @@ From V Require Proofs.BlocksTotal5Only.
    after the string "..peek_char_n:assert!(" + "*c > 0)" of the list below (it takes the two characters for a comment
    opener), and the build would lose the dependency of this file on the files of the sixth round *)
 From V Require Proofs.BlocksTotal6Row Proofs.BlocksTotal6Pos Proofs.BlocksTotal6Val Proofs.BlocksTotal6ValWalk Proofs.BlocksTotal6.
-From V Require Proofs.BlocksTotal7Add Proofs.BlocksTotal7ContWalk Proofs.BlocksTotal7Fm Proofs.BlocksTotal7Loc Proofs.BlocksTotal7Cur Proofs.BlocksTotal7.
+From V Require Proofs.BlocksTotal7Add Proofs.BlocksTotal7ContWalk Proofs.BlocksTotal7Atx Proofs.BlocksTotal7Fm Proofs.BlocksTotal7Loc Proofs.BlocksTotal7Cur Proofs.BlocksTotal7.
 
 Theorem Blocks_total_remaining_sites_list :
   BlocksTotal5Only.rem_sites =
@@ -1170,6 +1170,14 @@ Print Assumptions Blocks_total_partial_stored_values.
                              table.rs:try_inserting_table_header_paragraph:String::from_utf8(paragraph_content): the
                                paragraph offset `row` answers is 0 or follows an ASCII byte (the row end scanner matches
                                ASCII only), unescape_pipes keeps validity
+     BlocksTotal7AtxInv, BlocksTotal7Atx   strings.rs:chop_trailing_hashtags:line.len() - 1 (panics iff every byte of its
+                           argument is white space).  Its only caller hands it the WHOLE line when the container is an ATX
+                           heading.  Case split on the line: when it contains # the call is safe outright
+                           (rtrim_slice_nonempty); when it does not, handle_atx_heading cannot answer handled
+                           (position_hash would answer None), and no other node with the identifier of the container is an
+                           ATX heading: the frame invariant PI c (no node with identifier c is an ATX heading) holds for
+                           the last matched container (check_open_blocks_lmc: the root, a node that matched, or a node
+                           with a child — SV, ball), for fresh identifiers (PI_fresh) and is kept by every function
    Under utf8_valid x = true (the lines handed to process_line and the text after a front matter block are then valid
    UTF-8: Blocks_total_lines_partial, BlocksTotal7Loc.prologue_rest_valid):
      BlocksTotal7Fm        the three char-boundary slices of strings.rs front matter (split_off_front_matter:slice_from,
@@ -1187,8 +1195,9 @@ Print Assumptions Blocks_total_partial_stored_values.
                            BlocksTotal7CurScan.re_last_ascii / re_ascii, checked by vm_compute per scanner), to the LF or
                            beyond the line; a BOM is one character; for an ATX heading add_line gets the CHOPPED line, a
                            prefix of the line cut in front of an ASCII byte
-   RESULT: all twelve UTF-8 sites and the add_child unwrap are excluded; on valid UTF-8 input parse_blocks is Ok or a Panic
-   at one of the 9 sites of rem_sites7; for every input, Ok or one of the 15 sites of rem_sites7_all (= rem_sites7 + the
+   RESULT: all twelve UTF-8 sites, the add_child unwrap and chop_trailing_hashtags are excluded; on valid UTF-8 input
+   parse_blocks is Ok or a Panic at one of the 8 sites of rem_sites7; for every input, Ok or one of the 14 sites of
+   rem_sites7_all (= rem_sites7 + the
    six sites that need valid input: add_line, handle_alert, handle_footnote, the three front matter slices). *)
 
 Theorem Blocks_total_remaining_sites_list7 :
@@ -1200,8 +1209,7 @@ Theorem Blocks_total_remaining_sites_list7 :
     "mod.rs:finalize_borrowed:content.as_bytes()[pos]";
     "table.rs:try_opening_header:content.len() - 2";
     "table.rs:try_opening_header:content.len() - 2 - header_row.paragraph_offset";
-    "strings.rs:remove_trailing_blank_lines:line.len() - 1";
-    "strings.rs:chop_trailing_hashtags:line.len() - 1" ] /\
+    "strings.rs:remove_trailing_blank_lines:line.len() - 1" ] /\
   BlocksTotal7.rem_sites7_all =
   [ "mod.rs:finalize_borrowed:assert!(ast.open)";
     "mod.rs:add_line:assert!(ast.open)";
@@ -1216,8 +1224,7 @@ Theorem Blocks_total_remaining_sites_list7 :
     "mod.rs:finalize_borrowed:content.as_bytes()[pos]";
     "table.rs:try_opening_header:content.len() - 2";
     "table.rs:try_opening_header:content.len() - 2 - header_row.paragraph_offset";
-    "strings.rs:remove_trailing_blank_lines:line.len() - 1";
-    "strings.rs:chop_trailing_hashtags:line.len() - 1" ].
+    "strings.rs:remove_trailing_blank_lines:line.len() - 1" ].
 Proof. split; vm_compute; reflexivity. Qed.
 Print Assumptions Blocks_total_remaining_sites_list7.
 
@@ -1258,8 +1265,5 @@ Print Assumptions Blocks_total_partial_ok_or_remaining7_every_input.
                       front matter call is safe).  Missing: add_text_to_container with the exception active (needs
                       new <> self.current and <> last matched container: freshness), the walk from the handlers up, and
                       for the indented case the cursor invariant F1 at handle_code_block.
-     chop_trailing_hashtags:line.len() - 1 (1)   the ATX line contains its #: position_hash answered Some in
-                      handle_atx_heading; an ATX heading is a container only on the line that opened it (check_open_blocks
-                      never answers a Heading: root, a node that matched, or a parent).
    The walks of this round are independent files: a new family is one more `but <sites>` walk plus one line in the table
    of Proofs/BlocksTotal7.v. *)
